@@ -62,6 +62,11 @@ def threshold_cmps(rng):
         [ModelFieldsPercentMatch(.95)], [ModelFieldsPercentMatch(float("69") / 100)], [ModelFieldsPercentMatch(float("71") / 100)],
         [ModelFieldsPercentMatch(1 / 3)], [ModelFieldsNumberMatch(3)], [ModelFieldsNumberMatch(1)],
         [ModelFieldsNumberMatch(10)], [ModelFieldsNumberMatch(5)], [ModelFieldsNumberMatch(25)],
+        [ModelFieldsPercentMatch(float("80") / 100)], [ModelFieldsPercentMatch(float("90") / 100)],
+        [ModelFieldsPercentMatch(float("60") / 100)], [ModelFieldsPercentMatch(float("75") / 100)],
+        [ModelFieldsPercentMatch(float("32") / 100)], [ModelFieldsPercentMatch(float("55") / 100)],
+        [ModelFieldsPercentMatch(float("68") / 100)], [ModelFieldsPercentMatch(float("92") / 100)],
+        [ModelFieldsPercentMatch(float("50") / 100)], [ModelFieldsPercentMatch(1.0)],
         [ModelFieldsEquals(), ModelFieldsNumberMatch(4)],
     ])
 
@@ -69,14 +74,28 @@ def threshold_cmps(rng):
 def threshold_sample(rng):
     """objects whose key sets sit at the comparator boundaries"""
     out = {}
-    size = rng.choice([10, 20, 3, 7])
+    size = rng.choice([10, 20, 3, 7, 5, 25, 4])
     base = ["f%d" % i for i in range(size)]
     for j in range(rng.randint(2, 4)):
-        drop = rng.choice([0, 1, 2, 3, size * 3 // 10, size * 3 // 10 + 1])
+        drop = rng.choice([0, 1, 2, 3, size * 3 // 10, size * 3 // 10 + 1, size // 2, size // 4, size // 5, size // 10])
         extra = rng.choice([0, 0, 1, 2, 3])
         ks = base[drop:] + ["x%d_%d" % (j, i) for i in range(extra)]
         out["h%d" % j] = {k: 1 for k in ks}
     return out
+
+
+def holds(c, fa, fb):
+    """the documented meaning of a comparator, in exact arithmetic, from its configuration (not by calling it)"""
+    from fractions import Fraction
+    if isinstance(c, ModelFieldsEquals):
+        return fa == fb
+    if isinstance(c, ModelFieldsPercentMatch):
+        if not (fa | fb):
+            raise ZeroDivisionError
+        return Fraction(len(fa & fb), len(fa | fb)) >= Fraction(repr(float(c.percent_fields)))
+    if isinstance(c, ModelFieldsNumberMatch):
+        return len(fa & fb) >= c.number_fields
+    raise TypeError(c)
 
 
 class UF:
@@ -110,7 +129,7 @@ def check_registry(inputs, cmps, registry):
                 ka, kb = next(iter(a.type.keys()), ""), next(iter(b.type.keys()), "")
                 if (ka, kb) in c.edges:
                     return True
-            elif c.cmp(fa, fb):
+            elif holds(c, fa, fb):
                 return True
         return False
 
@@ -203,7 +222,7 @@ def falsify(ctx):
     for inputs, cmps, nontrivial in cases:
         try:
             hit = check_registry(inputs, cmps, registry)
-        except ZeroDivisionError:
+        except (ZeroDivisionError, stages.TooCostly):
             ctx.count("skip:zero-division")
             continue
         except Exception as e:  # noqa
@@ -219,5 +238,7 @@ def replay(ctx, hit):
     from ..worker import cmps_from
     try:
         return check_registry([tuple(x) for x in hit["input"]], cmps_from(hit["cmps"]), stages.make_registry())
+    except stages.TooCostly:
+        raise
     except Exception as e:  # noqa
         return {"kind": "merge-raises", "observed": f"{type(e).__name__}: {e}"}
